@@ -12,6 +12,7 @@ import json
 import os
 import random
 import sys
+import types
 
 from simkit import core, nbgen, refserver
 from simkit.core import EventLog, Violation, HarnessError
@@ -479,10 +480,14 @@ class Runner:
         self.violations.append(Violation(oracle, sig, detail))
 
     def abstract_state(self):
+        """A coverage measure only (distinct abstract global states reached) - it reads internals defensively so that a
+        refactoring of those internals changes the measure, never the verdict."""
         from nbdime.diffing import notebooks as nbn
-        import nbdime.merging.generic as mg
-        differs = sorted((k, getattr(v, "__name__", "?")) for k, v in nbn.notebook_differs.items())
-        preds = sorted(nbn.notebook_predicates.keys())
+        try:
+            differs = sorted((str(k), getattr(v, "__name__", "?")) for k, v in getattr(nbn, "notebook_differs", {}).items())
+            preds = sorted(str(k) for k in getattr(nbn, "notebook_predicates", {}).keys())
+        except Exception:
+            differs, preds = [], []
 
         def bucket(f):
             try:
@@ -490,8 +495,12 @@ class Runner:
             except Exception:
                 return -1
             return 0 if n == 0 else (1 if n < 8 else (2 if n < 128 else 3))
-        return core.sha([preds, differs, bucket(nbn.compare_text_approximate), bucket(nbn._compare_mimedata_strings),
-                         bool(mg._merge_strings.recursion)])[:12]
+        caches = [bucket(f) for name, f in sorted(vars(nbn).items()) if hasattr(f, "cache_info")]
+        try:
+            flags = [f() for f in _global_state_slots()]
+        except Exception:
+            flags = []
+        return core.sha([preds, differs, caches, [x for x in flags if isinstance(x, str)]])[:12]
 
     def ref(self, which, call):
         if not _REFS:
@@ -566,8 +575,16 @@ class Runner:
         w.activate()
         swarm = self.trace["swarm"]
         if swarm.get("lru") is not None:
-            nbn.compare_text_approximate = lru_cache(maxsize=swarm["lru"], typed=False)(nbn.compare_text_approximate.__wrapped__)
-            nbn._compare_mimedata_strings = lru_cache(maxsize=swarm["lru"], typed=False)(nbn._compare_mimedata_strings.__wrapped__)
+            # buggify knob: every *bounded* memo of the diffing modules gets another size (a bounded cache may evict at
+            # any time, so no correct program relies on what it retains; unbounded ones may carry identity and are left)
+            import nbdime.diffing.generic as dg
+            for mod in (nbn, dg):
+                for name, f in sorted(vars(mod).items()):
+                    params = getattr(f, "cache_parameters", None)
+                    if callable(params) and hasattr(f, "__wrapped__") and params().get("maxsize") is not None \
+                            and getattr(f, "__module__", None) == mod.__name__:
+                        setattr(mod, name, lru_cache(maxsize=swarm["lru"], typed=params().get("typed", False))(f.__wrapped__))
+                        self.stat("lru_knob_rebound")
         # deterministic ids for conflict-marker cells (masked in comparisons anyway)
         import uuid
         ctr = [0]
@@ -624,10 +641,10 @@ class Runner:
                 excs = {"MemoryError": MemoryError, "RecursionError": RecursionError, "KeyboardInterrupt": KeyboardInterrupt}
                 # one counting pass of the same call: where global state is transiently modified, which nbdime
                 # function every line event belongs to, and which instants are clean-up statements (never aborted)
-                import nbdime.merging.generic as mg
+                slots = _global_state_slots()
 
                 def fingerprint():
-                    return (bool(mg._merge_strings.recursion), len(nbn.notebook_predicates), len(nbn.notebook_differs), os.getcwd())
+                    return tuple(f() for f in slots) + (os.getcwd(),)
                 dp = DirtyProfile(core.REPO, fingerprint)
                 with dp:
                     perform(inl)
@@ -660,7 +677,7 @@ class Runner:
                     self.stat("fault_fired_" + op["exc"])
                     self.log.ev("aborted", at=op.get("at_line"), exc=op["exc"])
                     import nbdime.merging.generic as mg
-                    if mg._merge_strings.recursion:
+                    if getattr(getattr(mg, "_merge_strings", None), "recursion", False):
                         self.stat("probe_abort_inside_string_merge_left_flag")
                 else:
                     self.stat("abort_point_beyond_end")
@@ -676,6 +693,30 @@ class Runner:
                               for o in self.trace["ops"]][:40]}
         return {"violations": self.violations, "digest": self.log.digest(), "events": self.log.n,
                 "stats": self.stats, "distinct": {k: sorted(v) for k, v in self.distinct.items()}, "sample": sample}
+
+
+def _global_state_slots():
+    """Readers for the process-global state of nbdime's diffing/merging modules, discovered rather than named (a
+    refactoring may move a flag): module-level booleans / None, sizes of module-level containers, attributes kept on
+    module-level functions.  Each reader tolerates its slot disappearing."""
+    import collections
+    slots = []
+    for name, mod in sorted(sys.modules.items()):
+        if mod is None or not name.startswith(("nbdime.merging", "nbdime.diffing", "nbdime.utils", "nbdime.config", "nbdime.args",
+                                               "nbdime.prettyprint", "nbdime.log", "nbdime.ignorables")):
+            continue
+        for k, v in sorted(vars(mod).items(), key=lambda kv: kv[0]):
+            if k.startswith("__"):
+                continue
+            if isinstance(v, bool) or v is None:
+                slots.append(lambda mod=mod, k=k: repr(getattr(mod, k, "<gone>"))[:40] if isinstance(getattr(mod, k, None), (bool, type(None), int, str)) else "<obj>")
+            elif isinstance(v, (dict, list, set, collections.deque)):
+                slots.append(lambda mod=mod, k=k: len(getattr(mod, k, ())) if hasattr(getattr(mod, k, ()), "__len__") else -1)
+            elif isinstance(v, types.FunctionType) and v.__module__ == name and v.__dict__:
+                for a in sorted(v.__dict__):
+                    if a != "__wrapped__":
+                        slots.append(lambda v=v, a=a: repr(v.__dict__.get(a, "<gone>"))[:40])
+    return slots
 
 
 def execute(trace, scratch):
